@@ -38,6 +38,7 @@ type c12World struct {
 	sg           *lastgersync.LastGERSync
 	mainLeaves   []common.Hash
 	l2Leaves     []common.Hash
+	initialRoot  common.Hash // mainnet / rollup exit root the GER contract reports before the first deposit / verification
 	mainRoots    []common.Hash
 	l2Roots      []common.Hash
 	mainFront    ref.Frontier
@@ -103,11 +104,16 @@ func (w *c12World) rer() common.Hash {
 }
 
 func (w *c12World) addInfo() {
-	mer := ref.EmptyRoot
+	// before the first L1 deposit (first verification) the global exit root contract still holds its initial, all-zero
+	// mainnet (rollup) exit root; a third of the worlds use the empty-tree root instead (another deployment history)
+	mer := w.initialRoot
 	if n := len(w.mainRoots); n > 0 {
 		mer = w.mainRoots[n-1]
 	}
 	rer := w.rer()
+	if len(w.rollupLeaves) == 0 {
+		rer = w.initialRoot
+	}
 	if n := len(w.infos); n > 0 && w.infos[n-1].MER == mer && w.infos[n-1].RER == rer {
 		return // the contract emits no update for an unchanged GER
 	}
@@ -133,6 +139,9 @@ func (w *c12World) flushL1() error {
 }
 
 func c12Gen(rt *rapid.T, w *c12World) error {
+	if rapid.IntRange(0, 2).Draw(rt, "initialExitRoots") == 0 {
+		w.initialRoot = ref.EmptyRoot
+	}
 	steps := rapid.IntRange(3, 40).Draw(rt, "steps")
 	// one deposit in five repeats the fields of an earlier one on the same chain (the leaf does not cover the deposit count)
 	var prevL1, prevL2 []bridgesync.Bridge
